@@ -937,6 +937,10 @@ class Module(ABC):
         compartment_lengths = view["length"].to_numpy()
         num_previous_ncomp = len(within_branch_radiuses)
         branch_indices = pd.unique(view["global_branch_index"])
+        assert (
+            len(branch_indices) == 1
+            and num_previous_ncomp == ncomp_per_branch[branch_indices[0]]
+        ), "`.set_ncomp()` must be applied to exactly one entire branch."
 
         error_msg = lambda name: (
             f"You previously modified the {name} of individual compartments, but "
